@@ -17,6 +17,8 @@ Static clauses decided (necessary conditions of C14):
  DIRTY   SessionCache.flush clears the session's dirty state (cache.modified = False, save queue) only after the save
          loop of the round: a flush that failed leaves the session dirty, so the commit at session end retries, fails
          again and rolls back instead of committing the part that was flushed earlier.
+ DBKEY+  DBIndex.__init__ marks the column of every unique single-column index (three-valued evaluation of the flag expression under
+         "unique, one column"): no further condition on the column withholds the inline UNIQUE.
 """
 NOT_DECIDED = "database-level uniqueness; key swaps between objects across flushes"
 
